@@ -4,6 +4,7 @@
 // stdout: "MISMATCH idx op what err tol" per failing comparison, then "DONE ncases nmismatch maxrelerr"
 #include <SQuIDS/SUNalg.h>
 #include <SQuIDS/const.h>
+#include <SQuIDS/detail/MatrixExp.h>
 #include <gsl/gsl_matrix.h>
 #include <gsl/gsl_complex_math.h>
 #include "exact.h"
@@ -330,7 +331,11 @@ int main(int argc, char** argv) {
         { // accumulated into a vector that already holds something (identity component included): x (+-)= f(a,b) is x (+-) f(a,b)
           SU_vector x0 = b; x0[0] += 0.75;
           SU_vector x = x0; x += iCommutator(a, b); SU_vector e = x0 + r; expect_same("x+=iCommutator(a,b)", x, e, 0);
-          SU_vector y = x0; y -= iCommutator(a, b); SU_vector e2 = x0 - r; expect_same("x-=iCommutator(a,b)", y, e2, 0); }
+          SU_vector y = x0; y -= iCommutator(a, b); SU_vector e2 = x0 - r; expect_same("x-=iCommutator(a,b)", y, e2, 0);
+          // ... also when the accumulator is itself an operand
+          SU_vector p1 = a; p1 += iCommutator(p1, b); SU_vector ep1 = a + r; expect_same("a+=iCommutator(a,b)", p1, ep1, 0);
+          SU_vector p2 = a; p2 -= iCommutator(p2, b); SU_vector ep2 = a - r; expect_same("a-=iCommutator(a,b)", p2, ep2, 0);
+          SU_vector p3 = b; p3 -= iCommutator(a, p3); SU_vector ep3 = b - r; expect_same("b-=iCommutator(a,b)", p3, ep3, 0); }
         for (int e2 : {-60, 200}) {   // exact homogeneity under power-of-two scaling (tiny and huge operands)
           double sc = std::ldexp(1.0, e2);
           SU_vector as = a * sc, bs = b * sc, rs = iCommutator(as, bs), es = r * (sc * sc);
@@ -353,7 +358,11 @@ int main(int argc, char** argv) {
         { // accumulated into a vector that already holds something (identity component included): x (+-)= f(a,b) is x (+-) f(a,b)
           SU_vector x0 = b; x0[0] += 0.75;
           SU_vector x = x0; x += ACommutator(a, b); SU_vector e = x0 + r; expect_same("x+=ACommutator(a,b)", x, e, 0);
-          SU_vector y = x0; y -= ACommutator(a, b); SU_vector e2 = x0 - r; expect_same("x-=ACommutator(a,b)", y, e2, 0); }
+          SU_vector y = x0; y -= ACommutator(a, b); SU_vector e2 = x0 - r; expect_same("x-=ACommutator(a,b)", y, e2, 0);
+          // ... also when the accumulator is itself an operand
+          SU_vector p1 = a; p1 += ACommutator(p1, b); SU_vector ep1 = a + r; expect_same("a+=ACommutator(a,b)", p1, ep1, 0);
+          SU_vector p2 = a; p2 -= ACommutator(p2, b); SU_vector ep2 = a - r; expect_same("a-=ACommutator(a,b)", p2, ep2, 0);
+          SU_vector p3 = b; p3 -= ACommutator(a, p3); SU_vector ep3 = b - r; expect_same("b-=ACommutator(a,b)", p3, ep3, 0); }
         for (int e2 : {-60, 200}) {
           double sc = std::ldexp(1.0, e2);
           SU_vector as = a * sc, bs = b * sc, rs = ACommutator(as, bs), es = r * (sc * sc);
@@ -394,6 +403,23 @@ int main(int argc, char** argv) {
           SU_vector own1 = a; SU_vector vw1(d, &own1[0]); own1 = vw1.Evolve(H, t); expect_same("owner=viewOfOwner.Evolve(H,t)", own1, r, 0);
           SU_vector own2 = a; SU_vector vw2(d, &own2[0]); vw2 = own2.Evolve(H, t); expect_same("viewOfOwner=owner.Evolve(H,t)", own2, r, 0);
           SU_vector own3 = H; SU_vector vw3(d, &own3[0]); own3 = a.Evolve(vw3, t); expect_same("ownerOfH=a.Evolve(viewOfH,t)", own3, r, 0); }
+        { // the same evolution reached through unevaluated expressions on either side, and through the unitary transformation
+          SU_vector z(d);                                        // zero: a+z and H+z are expressions with the values of a and H
+          SU_vector e1 = (a + z).Evolve(H, t), e2 = (a + z).Evolve(H + z, t), e3 = a.Evolve(H + z, t), e4 = (a * 1.0).Evolve(H * 1.0, t);
+          expect_same("(a+0).Evolve(H,t)", e1, r, 0); expect_same("(a+0).Evolve(H+0,t)", e2, r, 0);
+          expect_same("a.Evolve(H+0,t)", e3, r, 0); expect_same("(a*1).Evolve(H*1,t)", e4, r, 0);
+          SU_vector e5 = a.Evolve(H, t * 0.5).Evolve(H, t * 0.5); expect_same("a.Evolve(H,t/2).Evolve(H,t/2)", e5, r, 64 * EPS * S);
+          // UTransform(v,s) = e^{sv} a e^{-sv} (as coded: U = exp(s v), result U a U^dagger), so s = -i t gives the evolution e^{-itH} a e^{itH};
+          // the generator goes through the matrix exponential (its diagonal shortcut for this H)
+          SU_vector u1 = a.UTransform(H, gsl_complex_rect(0, -t)); expect_same("a.UTransform(H,-i t)", u1, r, 1024 * EPS * S);
+          // and for a generator that is not diagonal: the same as exponentiating its matrix first
+          SU_vector G = a.Real() * 0.125 + H; auto gm = G.GetGSLMatrix();
+          gsl_matrix_complex_scale(gm.get(), gsl_complex_rect(0, 0.5));
+          gsl_matrix_complex* E = gsl_matrix_complex_alloc(d, d);
+          math_detail::matrix_exponential(E, gm.get());
+          SU_vector u2 = a.UTransform(G, gsl_complex_rect(0, 0.5)), u3 = a.UTransform(E);
+          gsl_matrix_complex_free(E);
+          expect_same("a.UTransform(G,s)=a.UTransform(exp(sG))", u2, u3, 1e-9 * (SA > 0 ? SA : 1)); }
         std::vector<double> buf(H.GetEvolveBufferSize());
         H.PrepareEvolve(buf.data(), t);
         SU_vector r3 = a.Evolve(buf.data());
